@@ -13,7 +13,7 @@ import RV.Driver.Util
     <cand>  = n, then n × (ip x y z vx vy vz r)
     <parts> = n, then n × (id x y z vx vy vz m r lc)
     <given> = k, then k × (p1 p2 gbindex)          (mode given: pre-shuffle list; mode ordered: processing order)
-    <res>   = script salt | zero | merge midflag | hs eps mcv eqmflag | halt
+    <res>   = script salt | zero | merge midflag teoflag G | hs eps mcv eqmflag | halt   (merge with teoflag: output ends with `E <energy_offset>`)
 -/
 open RV RV.Driver RV.Collision
 open RV.Tree (T Cell)
@@ -80,15 +80,22 @@ def scripted (salt : Nat) (s : Sim (Part Float)) (c : Coll (GB Float)) : Sim (Pa
 
 def floatTrig : Trig Float := ⟨Float.atan2, Float.sin, Float.cos, Float.sqrt⟩
 
-def tRes (t : Float) : Tok (Sim (Part Float) → Coll (GB Float) → Sim (Part Float) × Nat) := do
+structure ResInfo where
+  fn : Sim (Part Float) → Coll (GB Float) → Sim (Part Float) × Nat
+  /-- merge with track_energy_offset: (massless-guard flag, G) -/
+  eo : Option (Bool × Float) := none
+
+def tRes (t : Float) : Tok ResInfo := do
   match (← tok) with
-  | "script" => do let salt ← tNat; return scripted salt
-  | "zero" => return fun s _ => (s, 0)
-  | "merge" => do let mid ← tNat; return merge (mid != 0) Float.cbrt t
+  | "script" => do let salt ← tNat; return { fn := scripted salt }
+  | "zero" => return { fn := fun s _ => (s, 0) }
+  | "merge" => do
+    let mid ← tNat; let teo ← tNat; let g ← tF
+    return { fn := merge (mid != 0) Float.cbrt t, eo := if teo != 0 then some (mid != 0, g) else none }
   | "hs" => do
     let eps ← tF; let mcv ← tF; let eqm ← tNat
-    return hardsphere (eqm != 0) floatTrig mcv t (fun _ => eps)
-  | _ => return halt t
+    return { fn := hardsphere (eqm != 0) floatTrig mcv t (fun _ => eps) }
+  | _ => return { fn := halt t }
 
 def partStr (p : Part Float) : String :=
   s!"{p.id} {if p.flagged then 1 else 0} " ++ hxs [p.x, p.y, p.z, p.vx, p.vy, p.vz, p.m, p.r, p.lc]
@@ -129,9 +136,12 @@ def opF : Tok String := do
   -- mode "ordered": the given list is the order in which the code processed the entries
   let (sh, seed') := if mode == "ordered" then (found, UInt32.ofNat seed) else shuffle (UInt32.ofNat seed) found
   let s0 : Sim (Part Float) := ⟨parts, nActive, nVar, tree != 0, hybrid != 0, 0⟩
-  let (sf, calls) := processLoop v flagPart res (ks != 0 || hybrid != 0) s0 sh
+  let (sf, calls) := processLoop v flagPart res.fn (ks != 0 || hybrid != 0) s0 sh
   let sf := if vb.getD 5 0 != 0 then purgeFlagged (vb.getD 6 0 != 0) sf else sf
-  return fullOut seed' sf calls
+  let eo := match res.eo with
+    | some (mid, g) => " E " ++ hx (energyOffsetOf Float.sqrt Float.cbrt g t mid 0.0 calls)
+    | none => ""
+  return fullOut seed' sf calls ++ eo
 
 /-- all ordered pairs passing the LINE leaf test (what LINETREE reports when nothing is pruned):
     not part of the model, only the model's predicate `lineHit` applied to every ordered pair -/
